@@ -455,22 +455,22 @@ def run_health(ctx, cases):
     ctx.sample({"script": cases[0], "recorded": [e for e in events if e["cid"] == cases[0]["id"]][:10]})
 
 
-def slowstart_cases(ctx, num):
-    """Least-connection picks while a restarted backend's weight ramps up (slow start): seeded scenarios in real time."""
+def slowstart_cases(ctx, num, algos=("wlc_smooth", "wlc_simple"), ramp=(1,), stream=4):
+    """Picks while a restarted backend's weight ramps up (slow start): seeded scenarios in real time."""
     import random
-    rnd = random.Random(ctx.seed * 53 + 4)
+    rnd = random.Random(ctx.seed * 53 + stream)
     out = []
     for _ in range(num):
-        n = rnd.randint(2, 4)
+        n = rnd.randint(1, 4)
         w = [rnd.randint(1, 3) for _ in range(n)]
         ops = [{"op": "load", "n": n, "ord": list(range(1, n + 1)), "w": w}]
         for b in range(1, n + 1):
             for _ in range(rnd.randint(0, 6)):
                 ops.append({"op": "conn", "b": b, "d": 1})
-        ops.append({"op": "slowstart", "b": rnd.randint(1, n), "t": 1})
+        ops.append({"op": "slowstart", "b": rnd.randint(1, n), "t": rnd.choice(ramp)})
         for _ in range(rnd.randint(15, 30)):
-            ops.append({"op": "sleep", "t": rnd.randint(10, 60)})
-            ops.append({"op": "pick", "algo": rnd.choice(["wlc_smooth", "wlc_simple"]), "r": 0})
+            ops.append({"op": "sleep", "t": rnd.randint(0, 60)})
+            ops.append({"op": "pick", "algo": rnd.choice(list(algos)), "r": 0})
             if rnd.random() < 0.3:
                 ops.append({"op": "conn", "b": rnd.randint(1, n), "d": 1})
         out.append({"ops": ops})
@@ -577,6 +577,15 @@ def run_gate(ctx):
 def check_c05(ctx):
     q = ctx.tier == "quick"
     check_all(ctx, {"panic", "hang"}, "C05")
+    # every algorithm while a restarted backend ramps up (its effective weight is 0 at the very beginning)
+    ss = slowstart_cases(ctx, 10 if q else 80, algos=("smooth", "simple", "sticky", "wlc_smooth", "wlc_simple"),
+                         ramp=(1, 30), stream=5)
+    # the very beginning of a long ramp (effective weight still 0), every algorithm alone, 1 and 2 backends
+    for n in (1, 2):
+        for algo in ("smooth", "simple", "sticky", "wlc_smooth", "wlc_simple"):
+            ss.append({"ops": [{"op": "load", "n": n, "ord": list(range(1, n + 1)), "w": [1] * n},
+                               {"op": "slowstart", "b": 1, "t": 30}] + [{"op": "pick", "algo": algo, "r": 0}] * 8})
+    run_cases(ctx, ss, twin=False, label="C05-slowstart", decisive={"panic", "hang"})
     run_gate(ctx)
     run_conc(ctx, conc_cases(ctx, 6 if q else 40, 300 if q else 800))
     ctx.cov["rule"] += (" Plus really concurrent executions (picker goroutines over all five algorithms, one availability "
